@@ -1,8 +1,7 @@
 #!/usr/bin/env python3
 """Fills the BENIGN-TABLE placeholder / block of DESIGN.md from development runs (/tmp/dev_<tag>/summary.txt)."""
 import os, re, sys
-runs = [('b1 + b2 + b3 + b5 (importers, exporter, tokenizers, tokens, listener, pitch / transposer / gkern; 19 files)', '/tmp/dev_benign1'),
-        ('b4 (document, generic, public, _io, __main__, graphviz exporter; 6 files)', '/tmp/dev_benign_b4'),
+runs = [('b1 + b2 + b3 + b4 + b5 (importers, exporter, tokenizers, tokens, listener, pitch / transposer / gkern, document, generic, public, _io, __main__, graphviz exporter; 25 files)', '/tmp/dev_benign_a'),
         ('b6 (messages, docstrings, reprs, logging, imports; 28 files)', '/tmp/dev_benign_b6')]
 rows = ['| patches applied | exit codes of the 20 quick checks | INCONCLUSIVE obligations (budget end under a loaded machine, or E2 kernel restructured) |', '|---|---|---|']
 for name, d in runs:
